@@ -12,10 +12,12 @@ CONSTANTS
   Ends = {"close"}
   Writers = FALSE
   MaxOps = 1
+  Rereads = FALSE
   Parking = FALSE
   ResetOnOpen = TRUE
   ResetOnStart = TRUE
   RegisterOnReach = FALSE
+  RegisterBeforeWrite = FALSE
   EndChecksOnError = TRUE
   LogCalls = FALSE
 INVARIANT TypeOK
